@@ -642,17 +642,23 @@ impl<SE: extensions::ShellExtensions> ExecuteInPipeline<SE> for ast::Command {
                 {
                     let compound = compound.clone();
                     let mut shell = *target;
-                    let join_handle = tokio::spawn(async move {
-                        match compound.execute(&mut shell, &params).await {
-                            Ok(result) => Ok(result),
-                            Err(err) => {
-                                // The stage runs in a subshell of its own: report the error
-                                // there and reduce it to the stage's status.
-                                let mut stderr = params.stderr(&shell);
-                                let _ = shell.display_error(&mut stderr, &err);
-                                Ok(err.into_result(&shell))
+                    // N.B. Like builtin stages, the stage gets a thread of its own: it reads and
+                    // writes its pipes synchronously, so on a runtime worker it could keep the
+                    // stage that would unblock it from ever running when workers are scarce.
+                    let join_handle = tokio::task::spawn_blocking(move || {
+                        let rt = tokio::runtime::Handle::current();
+                        rt.block_on(async move {
+                            match compound.execute(&mut shell, &params).await {
+                                Ok(result) => Ok(result),
+                                Err(err) => {
+                                    // The stage runs in a subshell of its own: report the error
+                                    // there and reduce it to the stage's status.
+                                    let mut stderr = params.stderr(&shell);
+                                    let _ = shell.display_error(&mut stderr, &err);
+                                    Ok(err.into_result(&shell))
+                                }
                             }
-                        }
+                        })
                     });
                     return Ok(ExecutionSpawnResult::StartedTask(join_handle));
                 }
